@@ -58,6 +58,7 @@ def check(model, tier):
     sqlemit.r_flattened_predicate(ctx, "R02.17")
     sqlemit.r_select_never_empty(ctx, "R02.19")
     sqlplace.r_slice_keeps_its_sort(ctx, "R02.20")
+    sqlplace.r_subquery_keeps_its_slots(ctx, "R02.21")
     from ..rules import rangesql as _rangesql
 
     _rangesql.r12_7_range_membership(ctx, rule="R02.13")
